@@ -147,13 +147,13 @@ type RegexSpec struct {
 }
 
 var Regexes = []*RegexSpec{
-	{Src: "[0-9]+", Yes: []string{"1", "42", "007", "1234567890"}, No: []string{"abc", "x-y", "_"}, Part: []string{"12a", "a1"}},
-	{Src: "[a-z]+", Yes: []string{"a", "abc", "zzz"}, No: []string{"123", "X9", "_"}, Part: []string{"ab1", "Xa"}},
+	{Src: "[0-9]+", Yes: []string{"1", "42", "007", "1234567890"}, No: []string{"abc", "x-y", "_", "\u0661\u0662\u0663", "\uff11\uff12"}, Part: []string{"12a", "a1"}},
+	{Src: "[a-z]+", Yes: []string{"a", "abc", "zzz"}, No: []string{"123", "X9", "_", "\uff41\uff42", "\u0430\u0431"}, Part: []string{"ab1", "Xa"}},
 	{Src: "[A-Z][A-Z][0-9][0-9]", Yes: []string{"AB12", "ZZ00"}, No: []string{"ab12", "A1", "12AB"}, Part: []string{"AB123", "xAB12"}},
 	{Src: "[0-9a-f]{8}", Yes: []string{"deadbeef", "01234567"}, No: []string{"xyz", "DEADBEEF", "dead"}, Part: []string{"deadbeef0", "xdeadbeef"}},
 	{Src: "v[0-9]", Yes: []string{"v1", "v9"}, No: []string{"w1", "1v", "V1"}, Part: []string{"v10", "xv1"}},
 	{Src: "[a-z]+-[0-9]+", Yes: []string{"ab-12", "z-0"}, No: []string{"ab12", "AB-12", "-"}, Part: []string{"ab-12x", "1ab-1"}},
-	{Src: "\\d\\d\\d", Yes: []string{"123", "000"}, No: []string{"12", "abc", "1a2"}, Part: []string{"1234"}},
+	{Src: "\\d\\d\\d", Yes: []string{"123", "000"}, No: []string{"12", "abc", "1a2", "\u0661\u0662\u0663", "\uff11\uff12\uff13"}, Part: []string{"1234"}},
 }
 
 func init() {
@@ -196,10 +196,20 @@ func (r *RouteSpec) Render() string {
 }
 
 type SvcSpec struct {
-	ID     int         `json:"id"`
-	Root   Tmpl        `json:"-"`
-	RootS  string      `json:"root"`
-	Routes []RouteSpec `json:"routes"`
+	ID        int         `json:"id"`
+	Root      Tmpl        `json:"-"`
+	RootS     string      `json:"root"`
+	RootStyle int         `json:"root_style,omitempty"` // 1: the root path is declared with a trailing slash ("/users/")
+	Routes    []RouteSpec `json:"routes"`
+}
+
+// RenderRoot returns the root path string as handed to WebService.Path.
+func (s *SvcSpec) RenderRoot() string {
+	r := s.Root.String()
+	if s.RootStyle == 1 && r != "/" {
+		return r + "/"
+	}
+	return r
 }
 
 // Table is a set of WebServices.
@@ -210,7 +220,7 @@ type Table struct {
 // Fill renders the string forms (for JSON samples / replay files).
 func (t *Table) Fill() *Table {
 	for i := range t.Svcs {
-		t.Svcs[i].RootS = t.Svcs[i].Root.String()
+		t.Svcs[i].RootS = t.Svcs[i].RenderRoot()
 		for j := range t.Svcs[i].Routes {
 			t.Svcs[i].Routes[j].PathStr = t.Svcs[i].Routes[j].Render()
 		}
